@@ -205,6 +205,17 @@ def theorems_of(path):
     return names
 
 
+def leanchecker(modules, timeout=1200):
+    """`lake env leanchecker <modules>`: the toolchain's independent re-checker replays the compiled declarations in a fresh kernel"""
+    t0 = time.time()
+    with lean_lock():
+        try:
+            p = subprocess.run(["lake", "env", "leanchecker"] + list(modules), cwd=LEAN, capture_output=True, text=True, timeout=timeout)
+            return p.returncode == 0, (p.stdout + p.stderr), time.time() - t0
+        except subprocess.TimeoutExpired:
+            return False, "leanchecker timed out", time.time() - t0
+
+
 def gen_deps(modules):
     """names (Cxx) of the regenerated ElexModel.Gen.* modules transitively imported by the given modules"""
     seen, out, todo = set(), set(), list(modules)
